@@ -53,7 +53,7 @@ meta("C05",
 meta("C08",
      rule="G3 histories in which ~55% of the steps are calls the text model / grammar marks as failing (duplicate or clashing identifiers for every pair of record types, renames to identifiers in use, version conflicts, malformed lines, conflicting header values, edits of reference fields of connected lines, rm of unknown ids) interleaved with successful steps; full public observation compared before/after each raising call; non-trivial = history with >=1 raising call on a non-empty Gfa Probe steps: calls for which the text model has no verdict (identifiers mentioned in roles their carriers cannot play, lines taking the place of placeholders) are executed and, when they raise, must leave the observation unchanged; unknown-version scenarios include TS conflicts on VN headers. Level-0 unknown-version scenarios; header.add() call sequences with conflicting datatypes/values; group lines which define a tag of the group differently; the observation includes n_input_header_lines and the header values as returned by the API.",
      budget={"quick": 25, "thorough": 400},
-     min_counts={"quick": {"header_add_calls": 300, "probe_calls_failed": 400, "failing_calls": 1500}},
+     min_counts={"quick": {"header_add_calls": 300, "foreign_line_objects_offered": 60, "probe_calls_failed": 400, "failing_calls": 1500}},
      set_samples=["failure_classes"])
 meta("C09",
      rule="G3 histories with ~45% identifier clashes (additions and renames of every identified record type to identifiers in use by the same or another type) and legal renames; unique_names walker after every outermost mutation; model comparison after renames; non-trivial = history with a cross-type clash or a rename After every successful step a lookup oracle compares names/line()/segment() with the model (each identifier listed once and found as the real line that writes the model's record; freed identifiers not found), placeholders must exist exactly for mentioned-undefined identifiers, and line objects obtained earlier which claim to be connected must be the registered ones; L/C identifier tags are set, renamed and deleted; renames onto placeholders and to '*'.",
